@@ -77,3 +77,37 @@ func VerifC04_Operators() {
 	ctx := map[string]types.XValue{"a": functions.VerifArgValue(ka), "b": functions.VerifArgValue(kb)}
 	verifEvalTotal(ctx, verifOps[zzverif.Choice("operator", len(verifOps))])
 }
+
+// VerifC04_Templates: every template text of ≤ 4 ASCII bytes (quick) / 5
+// (thorough) — '@' before letters, digits, underscores, parentheses, quotes,
+// operators, unterminated expressions — evaluated by Evaluator.Template over a
+// small context returns text or an error: no panic, and it returns (a
+// template the scanner never finishes is a hang).
+// hang: violation
+// cover: text, error, has-at
+func VerifC04_Templates() {
+	n := 4
+	if zzverif.Thorough() {
+		n = 5
+	}
+	tpl := zzverif.String("template", n)
+	hasAt := false
+	for i := 0; i < len(tpl); i++ {
+		zzverif.Assume(tpl[i] != 0 && tpl[i] < 0x80)
+		if tpl[i] == '@' {
+			hasAt = true
+		}
+	}
+	if hasAt {
+		zzverif.Cover("has-at")
+	}
+	zzverif.Unwind(200)
+	env := envs.NewBuilder().Build()
+	ctx := types.NewXObject(map[string]types.XValue{"a": types.NewXText("x"), "n": types.NewXNumberFromInt(2)})
+	_, _, err := NewEvaluator().Template(env, ctx, tpl, nil)
+	if err != nil {
+		zzverif.Cover("error")
+	} else {
+		zzverif.Cover("text")
+	}
+}
